@@ -3,7 +3,7 @@
    interpreter (C13/Model.v) of the tables REGENERATED from
    odl/discr/diff_ops.py:finite_diff into Gen/FiniteDiff.v. *)
 From Coq Require Import QArith Qreals Reals Lia List Bool.
-From Verif Require Import Base.Num Base.Vec Base.VecR Lib.Axis Lib.AxisR C13.Syntax Gen.FiniteDiff C13.Model C13.ModelNd C13.Proofs C13.ProofsNd C13.ProofsLap C13.ProofsAffine C13.ProofsLinear Base.Transfer C13.Transfer Lib.AxisR2 C13.ProofsNdMore.
+From Verif Require Import Base.Num Base.Vec Base.VecR Lib.Axis Lib.AxisR C13.Syntax Gen.FiniteDiff C13.Model C13.ModelNd C13.Proofs C13.ProofsNd C13.ProofsLap C13.ProofsAffine C13.ProofsLinear Base.Transfer C13.Transfer Lib.AxisR2 C13.ProofsNdMore Lib.AxisMap C13.TransferNd.
 Import ListNotations.
 Local Open Scope R_scope.
 
@@ -256,3 +256,19 @@ Theorem laplacian_constant_padding_derivative_all_shapes :
   vadd (laplacian shape PConstant c dxs x) (laplacian shape PConstant 0 dxs h).
 Proof. exact laplacian_const_affine_nd. Qed.
 Print Assumptions laplacian_constant_padding_derivative_all_shapes.
+
+(* Tie between the two instances, N-d: the models of the four operators that the
+   ops_nd correspondence shards EXECUTE at Q are the rational restrictions of the
+   models the all-shapes theorems above are about (any pad constant, any shape;
+   the only premise is that the cell sides are nonzero, which the code divides by). *)
+Theorem nd_operators_executed_are_restrictions :
+  forall (shape : list nat) (m : meth) (p : pmode) (c : Q) (dxs x : list Q) (xs : list (list Q)) (ax : nat),
+  nzs dxs -> ~ (nth ax dxs 1%Q == 0)%Q ->
+  map Q2R (pderiv shape ax m p c (nth ax dxs 1%Q) x) =
+    pderiv shape ax m p (Q2R c) (Q2R (nth ax dxs 1%Q)) (map Q2R x) /\
+  map (map Q2R) (gradient shape m p c dxs x) = gradient shape m p (Q2R c) (map Q2R dxs) (map Q2R x) /\
+  map Q2R (divergence shape m p c dxs xs) =
+    divergence shape m p (Q2R c) (map Q2R dxs) (map (map Q2R) xs) /\
+  map Q2R (laplacian shape p c dxs x) = laplacian shape p (Q2R c) (map Q2R dxs) (map Q2R x).
+Proof. exact nd_transfer_all. Qed.
+Print Assumptions nd_operators_executed_are_restrictions.
